@@ -90,18 +90,6 @@ def r1_parse_sites(cx):
                 b = b or F.body(f)
                 okk = bool(re.search(r"CheckReader$|ByteRegion$|ByteSlice", owner)) or b.derives_from_call(t["args"][0], r"ValueStoreTrait>::get_data$")
                 cx.ob("R1", "R1/SliceParser.new@%s" % f["name"], okk, f, "SliceParser::new is fed by a CheckReader, a ByteRegion/ByteSlice view, or value-store data (loaded through a Crc32 cut) (owner %s)" % owner, ln=t.get("ln"))
-            if call_is(t, r"Reader::cut_source$"):
-                b = b or F.body(f)
-                v = enum_arg(b, t["args"][3])
-                im = enum_arg(b, t["args"][4])
-                nm = f["name"].split("::")[-1]
-                if nm == "cut_check":
-                    ok = v == {"param:4"} and im == {"const:True"}
-                    msg = "cut_check forwards its block_check parameter with in_memory = true (%s, %s)" % (sorted(v), sorted(im))
-                else:
-                    ok = v == {"None"}
-                    msg = "raw cut (%s) produces a Reader/ByteStream, which cannot parse_in: block_check is the constant None (%s)" % (nm, sorted(v))
-                cx.ob("R1", "R1/cut_source@%s" % f["name"], ok, f, msg, ln=t.get("ln"))
             if call_is(t, r"Source>::cut$") and not f.get("impl_trait", "").endswith("Source"):
                 # the raw cut of a source is a private matter of the reader layer: called from `Reader`'s own methods only,
                 # with block_check = None (plain views) or the caller's own block_check parameter (cut_source / cut_check)
@@ -110,9 +98,33 @@ def r1_parse_sites(cx):
                 v = enum_arg(b, t["args"][2])
                 forwards = bool(v) and all(x.startswith("param:") for x in v)
                 in_reader = (own.get("impl_self") or "").endswith("bases::reader::Reader")
-                okc = in_reader and ((forwards and re.search(r"::(cut_source|cut_check)$", own["name"])) or v == {"None"})
+                # (what cut_source / cut_check pass on is decided on their callers' feasible paths, see R1/cut_source@.. below)
+                okc = in_reader and (bool(re.search(r"::(cut_source|cut_check)$", own["name"])) or v == {"None"})
                 cx.ob("R1", "R1/Source.cut-caller@%s" % own["name"], bool(okc), f,
                       "Source::cut is called only by the reader layer (Reader::cut_source or a method of Reader), with None or the forwarded block_check (%s)" % sorted(v), ln=t.get("ln"))
+    # what reaches Source::cut from each cutting method of Reader (its private helpers inlined, only the feasible paths):
+    # raw cuts ask for no check, cut_check forwards the check it was given and asks for the bytes in memory
+    for item in ("create_stream", "cut", "cut_check"):
+        f = F.one(impl_self="bases::reader::Reader", item=item, closure=False)
+        b = F.deep_body(f, only=r"bases::reader::")
+        r, _ = b.explore(avoid=b.error_blocks())
+        cuts = [(i, t) for i, t in b.calls(r"Source>::cut$") if i in r]
+        if len(cuts) != 1:
+            raise AnchorLost("Reader::%s: %d reachable calls of Source::cut" % (item, len(cuts)))
+        t = cuts[0][1]
+        kinds = ("variant", "param", "call", "const")
+        bc = {x for x in b.origins(t["args"][2], through_calls=False, blocks=r) if x[0] in kinds}
+        im = {x for x in b.origins(t["args"][3], through_calls=False, blocks=r) if x[0] in kinds}
+        none = {("variant", v) for v in ("bases::block::BlockCheck::None",)}
+        is_none = bool(bc) and all(x[0] == "variant" and x[1].endswith("BlockCheck::None") for x in bc)
+        if item == "cut_check":
+            pidx = [l for l in range(1, f["arg_count"] + 1) if (f["locals"][l].get("ty") or "").endswith("BlockCheck")]
+            ok = bool(pidx) and bc == {("param", pidx[0])} and im == {("const", True)}
+            msg = "cut_check forwards its block_check parameter with in_memory = true (%s, %s)" % (sorted(bc), sorted(im))
+        else:
+            ok = is_none
+            msg = "raw cut (%s) produces a Reader/ByteStream, which cannot parse_in: block_check is the constant None (%s)" % (item, sorted(bc))
+        cx.ob("R1", "R1/cut_source@bases::reader::Reader::%s" % item, ok, f, msg, ln=t.get("ln"))
     # get_slice(.., BlockCheck::X) outside Source impls: Crc32 never needed there; None only on verified / raw-content receivers
     for f in F.live_fns:
         if "blocks" not in f or f.get("impl_trait", "").endswith("io::Source"):
